@@ -17,7 +17,7 @@ for log in sys.argv[1:]:
         if "checks" not in d:
             continue
         pid, var = tag[:3], tag[3:]
-        src = {"A": "/tmp/mut_%s_out", "B": "/tmp/mut_%s_out", "C": "/tmp/mut2_%s_out", "D": "/tmp/mut2_%s_out"}.get(var, "/tmp/mut3_%s_out" if var in "EF" else ("/tmp/mut4_%s_out" if var in "GH" else "/tmp/mut5_%s_out")) % pid
+        src = {"A": "/tmp/mut_%s_out", "B": "/tmp/mut_%s_out", "C": "/tmp/mut2_%s_out", "D": "/tmp/mut2_%s_out"}.get(var, "/tmp/mut3_%s_out" if var in "EF" else ("/tmp/mut4_%s_out" if var in "GH" else ("/tmp/mut5_%s_out" if var in "IJ" else "/tmp/mut6_%s_out"))) % pid
         confirmed = d.get("baseline_ok") and d.get("demo_with_change_rc") == 1 and d.get("demo_without_change_rc") == 0
         if not confirmed:
             print(tag, "NOT confirmed:", d.get("baseline"), d.get("demo_with_change_rc"), d.get("demo_without_change_rc"))
